@@ -75,7 +75,9 @@ pub fn viz_config(bits: usize) -> VizConfig {
     VizConfig { show_value: bits & 1 != 0, show_locb: bits & 2 != 0, show_rub: bits & 4 != 0, show_threshold: bits & 8 != 0, show_deleted: bits & 16 != 0, group_merged: bits & 32 != 0 }
 }
 
-pub fn compile_one<D: DdX>(dd: &mut D, m: &dyn Model, t: &Target, log: bool, viz: &[usize]) -> CompRes {
+pub fn compile_one<D: DdX>(dd: &mut D, m: &dyn Model, t: &Target, log: bool, viz: &[usize]) -> CompRes { compile_one_opt(dd, m, t, log, viz, true) }
+/// `drain = false`: the cut-set is left in the diagram (what the solvers do when the diagram reports exactness)
+pub fn compile_one_opt<D: DdX>(dd: &mut D, m: &dyn Model, t: &Target, log: bool, viz: &[usize], drain: bool) -> CompRes {
     let rec = RecModel(m);
     let cache = EmptyCache::<St>::new();
     let dom = EmptyDominanceChecker::<St>::default();
@@ -110,7 +112,7 @@ pub fn compile_one<D: DdX>(dd: &mut D, m: &dyn Model, t: &Target, log: bool, viz
                 let v = catch_unwind(AssertUnwindSafe(|| dd.viz(&cfg)));
                 res.viz.push((*bits, v.map_err(|_| take_panic_msg())));
             }
-            if res.panicked.is_none() {
+            if res.panicked.is_none() && drain {
                 let mut cs = vec![];
                 let d = catch_unwind(AssertUnwindSafe(|| dd.drain_cutset(|c| cs.push(c))));
                 if d.is_err() { res.panicked = Some(format!("drain_cutset panicked: {}", take_panic_msg())); }
@@ -340,7 +342,8 @@ fn run_kind<D: DdX>(rep: &Reporter, focus: &[&str], plan: &Plan, m: &dyn Model, 
         // history independence
         if plan.history && res.panicked.is_none() && (t.width <= 2) && (t.lb == isize::MIN || ti % 3 == 0) {
             for (hi, h) in hist.iter().enumerate() {
-                let _ = compile_one(&mut dd, m, h, false, &[]);
+                // the prior compilation leaves its cut-set undrained, as the solvers do for a diagram which claims exactness
+                let _ = compile_one_opt(&mut dd, m, h, false, &[], false);
                 let again = compile_one(&mut dd, m, t, false, &[]);
                 agg.compilations += 2;
                 agg.history_pairs += 1;
@@ -418,8 +421,8 @@ fn plans(prop: &str, th: bool) -> Vec<Plan> {
         mkplan("TM-N2.1", variants_ca(), true, w, false, false, Some(if th { 391 } else { 100 })),
         mkplan("TM-N3.1", variants_ca(), true, w, false, false, Some(if th { 451 } else { 100 })),
         mkplan("SP-3", sp.clone(), false, w, hist, false, None),
-        mkplan("SP-4", sp.clone(), true, w, false, false, Some(if th { 5184 } else { 600 })),
-        mkplan("KP-3", variants_kp(), true, w, false, false, Some(if th { 5103 } else { 600 })),
+        mkplan("SP-4", sp.clone(), true, w, false, false, Some(if th { 5184 } else { 2500 })),
+        mkplan("KP-3", variants_kp(), true, w, hist, false, Some(if th { 5103 } else { 2500 })),
     ];
     if prop != "C13" {
         p.push(mkplan("TM-N0.0irr", irr.clone(), true, w, hist, false, Some(if th { 1351 } else { 300 })));
